@@ -85,7 +85,7 @@ def walk (t : Tree) : List Bytes → List Bytes → Option (List Bytes)
     else
       match kindAt t (s :: cur).reverse with
       | some .dir => walk t (s :: cur) rest
-      | some .file => if rest.all (fun x => x.isEmpty) then some (s :: cur).reverse else none
+      | some .file => if rest.isEmpty then some (s :: cur).reverse else none   -- ENOTDIR otherwise, even for a trailing slash
       | none => none
 
 /-- where an absolute path string leads, if anywhere -/
